@@ -39,6 +39,8 @@ type Prog struct {
 
 	noReturn   map[*ssa.Function]bool
 	entryCache map[*ssa.Function]relSet
+	ipathCache map[*ssa.Function][]ipath
+	keepOpaque map[*ssa.Function]bool
 	exitCache  map[*ssa.Function]relSet
 	srcFuncs   []*ssa.Function // all functions (incl. anonymous) with source in repo packages
 }
